@@ -58,16 +58,24 @@ def run(ctx):
         "tools/extract.py (reads GENERATOR_MATRIX / PARITY_CHECK_MATRIX / CORRECT_SYNDROME / n,k,d of the 7 classes from /repo)",
         "hand-written model of generate/check/check_and_correct (Model/Codes.lean) tied to the code by this run's correspondence",
         "numpy / bitarray are trusted as the substrate of the implementation",
+        "Spec/EtsiCodes.lean + harness/reference/etsi_codes.json: hand-maintained reference copy of the ETSI Annex B.3 generator matrices",
     ]
     ctx.assumptions += ["bit strings are passed as big-endian bitarrays of the documented length"]
+    import json, os
+    ref = json.load(open(os.path.join(os.path.dirname(os.path.abspath(__file__)), "..", "reference", "etsi_codes.json")))
     for name, cls, n, k, d, is_hamming in codes():
         # ---------------- messages: exhaustive
         cw = {}
         pairs = []
+        rG = ref[name]["G"]
         for v in range(2**k):
             m = int2ba(v, length=k)
             out = gen_str(cls, bitarray(m))
             cw[v] = out
+            # oracle: the code word is the one the standard's generator matrix (reference copy) gives
+            exp = "".join(str(sum(rG[i][j] & m[i] for i in range(k)) % 2) for j in range(n))
+            if out != exp:
+                ctx.fail("not-the-etsi-codeword", {"code": name, "message": bits_str(m)}, f"{name}.generate differs from the ETSI B.3 generator matrix", expected=exp, actual=out)
             pairs.append((f"code.gen {name} {bits_str(m)}", out))
             ctx.case((name, "gen", v), nontrivial=v != 0, sample={"code": name, "op": "generate", "message": bits_str(m), "out": out} if v == 5 else None)
             # oracle: systematic, length, passes the checker
